@@ -82,8 +82,94 @@ CHECKS = {
             "a dropped graph is gone after the drop and after every later restart, a re-created graph starts empty. MC_Store checks "
             "DropFinal and KGIsolation on the abstract machine.",
             "The concurrent part (insert racing drop + re-create) is not covered by this check yet. " + TB, "7 C17"),
+    "C13": ("fs-crash", "crash images at every real syscall boundary (strace + fsreplay) judged by StoreTrace!Crash / Store!CrashOK",
+            "model_checking",
+            "The real engine performs seeded histories under strace (no hook in the persistence code). Every file-system mutation "
+            "is a crash point under loss models M0 (nothing lost), M1 (last write torn), M2 (un-fsynced file data lost); each image "
+            "is reopened by the real recovery code and accepted iff the store reopens and serves the state after some prefix of the "
+            "attempted operations containing every acknowledged one.",
+            "Directory-entry loss (renames without directory fsync) and crashes during recovery itself are not enumerated yet; "
+            "trusted: strace, tools/fsreplay.py POSIX model. " + TB, "7 C13"),
+    "C16": ("fs-crash", "same crash-image enumeration over histories of rule / schema catalog updates, judged by Store!CrashOK",
+            "model_checking",
+            "Histories of rule register/drop and schema register/remove interleaved with fact writes; every file-system mutation "
+            "(including torn catalog writes, M1, and un-synced catalog content, M2) is a crash point; accepted iff the graph opens and "
+            "rules/schemas are those after a prefix of the attempted operations containing every acknowledged one.",
+            "trusted: strace, tools/fsreplay.py. " + TB, "7 C16"),
+    "C27": ("handler-trace", "effect-based trace validation of authorization against Auth.tla (HandlerTrace!Unauthorized / Leaked)",
+            "model_checking",
+            "Seeded multi-statement programs (about 50 statement templates, comments, continuation lines, .kg use/create/drop, "
+            "session- or graph-bound) by a non-admin identity with every combination of graph roles; the whole system state is "
+            "recorded after each request; accepted iff every graph whose facts/rules/schemas changed was writable by the caller "
+            "(Auth!CanWrite / CanDrop / CanCreate) and no returned row carries a marker value of a graph the caller cannot read.",
+            "Write permission = role on the graph >= editor (the global role gates system-level operations only): the weaker reading "
+            "of the statement, the one the code documents. " + TB, "7 C27"),
+    "C28": ("handler-trace", "TLC evaluates the lattice laws (MatrixTrace.tla) on the real decision matrix, exhaustive",
+            "model_checking",
+            "Every Statement/MetaCommand variant (exhaustive match: a new variant is a build error) x 3 global x 3 graph roles through "
+            "the real authorize_statement / authorize_kg_operation; TLC checks monotonicity per layer, viewer read-only (graph "
+            "viewers never permit graph-changing kinds, global viewers never system-changing kinds, viewer+viewer nothing mutating) "
+            "and admin-only user/api-key/compaction management.",
+            "Classification of kinds is the specification's own. " + TB, "7 C28"),
+    "C29": ("handler-trace", "effect-based trace validation: HandlerTrace!InternalChangeOK, leak and session-binding checks",
+            "model_checking",
+            "C27's generator with the internal graph named in every position (target graph, .kg use/create/drop, rules and queries "
+            "over users/kg_acls, session re-binding); accepted iff the internal graph is unchanged except for access-control entries of "
+            "graphs the caller owns, no secret marker is returned, no switch to it is acknowledged and no session ends up bound to it.",
+            TB, "7 C29"),
+    "C30": ("handler-trace", "trace validation of program atomicity against Store!ApplySeq",
+            "model_checking",
+            "Programs of 1-5 insert/bulk-insert/delete statements with one of 12 malformed statements injected at a random position: "
+            "if any statement is rejected by the system's own statement parser the request must fail and the persistent state must be "
+            "unchanged; a program of known statements must have exactly the effect of its statements in order.",
+            "'fails to parse' is relative to the system's statement parser (recorded per statement). " + TB, "7 C30"),
+    "C31": ("laws", "TLC evaluates the total-order laws (ValuesTrace.tla) on the real cmp/eq/hash matrices, exhaustive over the domain",
+            "model_checking",
+            "All pairs and triples of a 52-value domain of every kind (0.0, -0.0, three NaNs, infinities, both integer widths, "
+            "independently built equal values, vectors) and of 72 tuples: reflexive, antisymmetric, transitive, cmp = Equal iff eq, "
+            "eq implies equal hash.",
+            "Finite representative domain. " + TB, "7 C31"),
+    "C32": ("handler-trace", "trace validation of write statements against the set model (Store!Apply, Store!Reported)",
+            "model_checking",
+            "Programs of inserts, bulk inserts with in-batch duplicates, single/bulk deletes, conditional deletes and updates (equality "
+            "/ inequality conditions) through the real handler; accepted iff relations stay duplicate-free, the state is the set "
+            "model's and every acknowledgement carries the set model's count (new / deleted / matched).",
+            "Conditions are equalities and inequalities on one column (tokens, no arithmetic order in the store specification). " + TB,
+            "7 C32"),
+    "C33": ("handler-trace", "trace validation of schema enforcement (HandlerTrace!MustAcceptT / MustRejectT)",
+            "model_checking",
+            "Random schemas over int/string/float/bool and random batches (exact kinds, wrong kinds, wrong arities, mixed batches): a "
+            "batch with a must-reject tuple leaves the relation unchanged, a batch of must-accept tuples is applied, no stored tuple "
+            "is must-reject; data-before-schema histories included.",
+            "Documented coercions (int into float, ...) are a don't-care zone. " + TB, "7 C33"),
+    "C34": ("handler-trace", "trace validation against Datalog!NegStratified of the combined persistent + session rule set",
+            "model_checking",
+            "Random rule sets over 2-4 unary predicates with random signs, split arbitrarily between persistent registrations and "
+            "request-local session rules, then a query: a set with recursion through negation must not be answered, a stratified set "
+            "must be accepted completely and answered.",
+            TB, "7 C34"),
+    "C35": ("handler-trace", "trace validation against Page!IsSortedSlice relative to the same engine's unsorted answer",
+            "model_checking",
+            "Relations of 2-6 tuples mixing int widths, floats (NaN, inf, -0.0), strings and nulls; random sort annotations, limits "
+            "and offsets around the boundaries; accepted iff the call succeeds, total = full answer size and the rows are a slice of "
+            "an ordering of the full answer that respects every comparable pair (ties and cross-kind pairs free).",
+            "String order supplied as ranks of a 4-string alphabet (TLC has no string order). " + TB, "7 C35"),
+    "C36": ("laws", "trace validation of bloom filter / hash index histories against IndexTrace.tla",
+            "model_checking",
+            "Random histories on real BloomFilter (all sizes incl. 0 bits / 0 hashes requested) and HashIndex (insert, remove, rebuild, "
+            "get / get_with_bloom / probe / might_contain_key) with keys of every value kind; the specification keeps the abstract "
+            "content and accepts a lookup iff it returns exactly the stored tuples with that key and never a false negative.",
+            "BloomFilter::new is called within its documented preconditions. " + TB, "7 C36"),
 }
 
+ENGINES.append({"name": "fs-crash", "path": "tools/eng_crash.py", "serves_properties": ["C13", "C16"],
+                "kind_free_text": "strace of the real engine + tools/fsreplay.py crash images + real recovery, judged by StoreTrace!Crash"})
+ENGINES.append({"name": "handler-trace", "path": "tools/eng_handler.py",
+                "serves_properties": ["C27", "C28", "C29", "C30", "C32", "C33", "C34", "C35"],
+                "kind_free_text": "scenarios through the real protocol Handler; whole-system state after each request judged by "
+                                  "spec/HandlerTrace.tla (Auth, Store, Page, Datalog) and spec/MatrixTrace.tla"})
+ENGINES.append({"name": "laws", "path": "tools/eng_laws.py", "serves_properties": ["C31", "C36"],
+                "kind_free_text": "real comparison matrices / index histories judged by spec/ValuesTrace.tla and spec/IndexTrace.tla"})
 ENGINES.append({"name": "store-replay", "path": "tools/eng_store.py", "serves_properties": ["C11", "C12", "C14", "C17"],
                 "kind_free_text": "spec/MC_Store.tla enumerates histories of the abstract store machine; harness replays them on the "
                                   "real StorageEngine; spec/StoreTrace.tla judges every observed step (Store!StepOK)"})
